@@ -5,7 +5,7 @@
    identities (gls.GoID) of live goroutines are pairwise distinct; an identity is constant within a
    goroutine by construction and may be given again to a later goroutine after its holder exited. *)
 From Coq Require Import List Arith Bool ZArith.
-From Verif Require Import C33.Model C33.Proof.
+From Verif Require Import C33.Model C33.Proof C33.ExitModel C33.ExitProof.
 Import ListNotations.
 
 (* at most one goroutine is between a successful CAS and its unlock, and then the lock word is 1.
@@ -56,6 +56,61 @@ Theorem C33_reuse_safe_refuted : exists id0 tr s t r,
   t_live (thr s t) = true /\ In r (t_frames (thr s t)) /\ creator s r <> t /\ t_live (thr s (creator s r)) = false.
 Proof. exact reuse_refuted. Qed.
 Print Assumptions C33_reuse_safe_refuted.
+
+(* ---------------- endings of a goroutine (C33/ExitModel.v) ----------------
+   [xrun d (init id0) tr]: histories in which a goroutine may also end INSIDE its interpreted frames
+   ([XGoexit t]: runtime.Goexit(); only deferred calls run, the code after funv.Call in Comp.Go does not).
+   d = true is the code as written (defer tg2.glsDel()), d = false the removal as a plain call after funv.Call. *)
+
+(* with the deferred removal such an ending is, for the registry, a return: every history of the extended machine is a
+   history of the base machine, so all theorems above hold for it *)
+Theorem C33_goexit_is_return : forall tr s, xrun true s tr = run s (map erase tr).
+Proof. exact xrun_deferred. Qed.
+Print Assumptions C33_goexit_is_return.
+
+Theorem C33_goexit_owner_invariant : forall id0 tr s, xrun true (init id0) tr = Some s -> run_inj (init id0) (map erase tr) ->
+  ((forall g r, reg s g = Some r -> owner s r = g) /\
+   (forall t r, In r (t_frames (thr s t)) -> t_live (thr s t) = true /\ owner s r = t_id (thr s t)) /\
+   (forall t1 t2 r, In r (t_frames (thr s t1)) -> In r (t_frames (thr s t2)) -> t1 = t2)) /\
+  (forall t r y, t_live (thr s t) = true -> t_seen (thr s t) = Some r -> t_pc (thr s t) = PGot y -> y = Some r) /\
+  (forall t y, t_live (thr s t) = true -> t_kind (thr s t) = KGo -> t_pc (thr s t) = PGot y ->
+     exists r, y = Some r /\ creator s r = t /\ t_mine (thr s t) = Some r).
+Proof. exact goexit_invariants. Qed.
+Print Assumptions C33_goexit_owner_invariant.
+
+(* the record a go statement creates for its goroutine is in NO registry slot once that goroutine has ended - by return
+   or inside its frames - in every reachable state of every interleaving (no hypothesis on identities needed):
+   a goroutine that is later given the same identity cannot receive it *)
+Theorem C33_go_child_unregistered_on_every_exit : forall id0 tr s, xrun true (init id0) tr = Some s ->
+  forall t r, t_kind (thr s t) = KGo -> t_live (thr s t) = false -> t_mine (thr s t) = Some r ->
+  forall id, reg s id <> Some r.
+Proof. exact go_child_unregistered. Qed.
+Print Assumptions C33_go_child_unregistered_on_every_exit.
+
+(* the removal MUST be deferred: with a plain call after funv.Call the model has a history (identities pairwise distinct
+   among live goroutines throughout) after which the go-statement goroutine 1 is gone, its record 1 is still registered
+   under its identity, and goroutine 2 - started by compiled code, given the same identity - runs an interpreted frame
+   on that record.  Witness: ExitProof.goexit_trace ++ goexit_tail false; replayed on the code by the harness
+   (parts B and E: go statement whose goroutine calls runtime.Goexit() in an interpreted frame). *)
+Theorem C33_plain_delete_refuted : exists id0 tr s t r t2,
+  xrun false (init id0) tr = Some s /\ xrun_injb false (init id0) tr = true /\
+  leftover s t r /\ t2 <> t /\ t_live (thr s t2) = true /\ In r (t_frames (thr s t2)).
+Proof. exact plain_delete_refuted. Qed.
+Print Assumptions C33_plain_delete_refuted.
+
+(* non-vacuity: the same history on the code as written - the child's entry is removed although it never returned,
+   and goroutine 2 allocates a record of its own (record 2) *)
+Example C33_ex_goexit_deferred : exists s,
+  xrun true (init 0) (goexit_trace ++ goexit_tail true ++ [XE (ELock 2); XE (EBody 2); XE (EUnlock 2)]) = Some s /\
+  t_kind (thr s 1) = KGo /\ t_live (thr s 1) = false /\ t_mine (thr s 1) = Some 1 /\
+  snapshot s = [(0, 0); (7, 2)] /\ t_frames (thr s 2) = [2] /\ creator s 2 = 2.
+Proof. eexists. split. vm_compute. reflexivity. vm_compute. repeat split; reflexivity. Qed.
+
+(* harness-level event HGoexit (cases_NNN.v): same registry protocol as HExit *)
+Example C33_ex_goexit_h : exists s,
+  hrun (init 0) [HSpawnGo 0 1 7; HCall 1 0; HCall 1 0; HGoexit 1; HSpawnForeign 2 7; HCall 2 0] = Some s /\
+  snapshot s = [(0, 0); (7, 2)] /\ t_frames (thr s 2) = [2] /\ t_live (thr s 1) = false.
+Proof. eexists. split. vm_compute. reflexivity. vm_compute. repeat split; reflexivity. Qed.
 
 (* ---------------- non-vacuity: a concrete interleaving with contention on the lock and identity reuse ------------- *)
 (* main (goroutine 0, identity 0) runs a go statement: child 1 gets identity 7; compiled code starts goroutine 2
